@@ -9,6 +9,7 @@
      c_min c <= c_max c   max(padding/0.2 km, 50 km) <= max_length  (otherwise see the *_refuted theorems, finding F16)
      erase els            els without the inserted amplifiers
      tot_len / tot_ll     sum of the fibre lengths / of length x loss coefficient
+     span_sl c r          loss of a span minus the estimated Raman gain of its Raman fibres (c_rg c, an input)
      runs els             the spans: maximal fibre/fused runs as prev_node_generator / next_node_generator delimit them
      PairOk x y           junction rule for neighbours x -> y: no fibre-fibre, ROADM-fibre, fibre-ROADM junction; an
                           inserted amplifier only touches fibres and ROADMs (none next to Fused / Transceiver)
@@ -84,7 +85,7 @@ Print Assumptions C08_connectors_and_padding.
 
 (* add_fiber_padding changes nothing but att_in of the first element of a span, and only when that is a fibre *)
 Theorem C08_padding_first_fibre_only : forall c r r', pad_run c r = Ok r' ->
-  r' = r \/ exists g t, r = Fib g :: t /\ r' = bump (Fib g) (c_pad c - run_loss r) :: t /\ (run_loss r < c_pad c)%Q.
+  r' = r \/ exists g t, r = Fib g :: t /\ r' = bump (Fib g) (c_pad c - span_sl c r) :: t /\ (span_sl c r < c_pad c)%Q.
 Proof. exact pad_run_shape. Qed.
 Print Assumptions C08_padding_first_fibre_only.
 
@@ -130,10 +131,15 @@ Theorem C08_padding_fused_refuted : exists c l l' r,
   (run_loss r < c_pad c)%Q /\ junctions_ok (l_sk l) (l_dk l) (l_els l') = true.
 Proof. exact padding_fused_refuted. Qed.
 Print Assumptions C08_padding_fused_refuted.
-(* F15: a Raman fibre inside a fused run that ends with a plain fibre: add_fiber_padding raises *)
-Theorem C08_raman_in_fused_run_raises : exists c l e, no_auto (l_els l) /\ design_line c l = Err e.
-Proof. exact pad_raman_raises. Qed.
-Print Assumptions C08_raman_in_fused_run_raises.
+(* a Raman fibre inside a fused run that ends with a plain fibre is designed (gnpy fix 36fd5b85 for finding F15;
+   witness kept in corpus/C08/f15_raman_fused_fiber.json): the Raman gain estimate is an input of the model (c_rg) *)
+Theorem C08_raman_in_fused_run_designs : exists l', no_auto (l_els (w_line [w_user_amp "a";
+    Fib (mkFib "r" true (qz 80000) (1 # 5000) (Some 0%Q) (Some (1 # 2)) 0 []); Fus "u" 1; Fib (w_fib "f" 5 [])])) /\
+  design_line w_cfg_r (w_line [w_user_amp "a"; Fib (mkFib "r" true (qz 80000) (1 # 5000) (Some 0%Q) (Some (1 # 2)) 0 []);
+                               Fus "u" 1; Fib (w_fib "f" 5 [])]) = Ok l' /\
+  names (l_els l') = ["a"; "r"; "u"; "f"; "Edfa_preamp_B_from_f"]%string.
+Proof. exact pad_raman_designs. Qed.
+Print Assumptions C08_raman_in_fused_run_designs.
 
 (* ---- non-vacuity: a line with a fibre to split, a fused junction, a short fibre to pad, a user amplifier ---- *)
 Example C08_ex_hyps : c_min w_cfg <= c_max w_cfg /\ no_auto (l_els ex_line).
